@@ -244,6 +244,18 @@ def partition_all(builds, *, do_verify: bool = True, do_number: bool = True,
     sim = MPI.run_world(len(builds), rank_fn, chooser, por=por)
     return PartitionOutcome(states, sim)
 
+
+
+def verify_all(partitions, *, chooser=None, por: bool = True):
+    """verify_distributed_partition on every rank -> SimResult."""
+    MPI = install()
+    import pytato as pt
+
+    def rank_fn(comm):
+        pt.verify_distributed_partition(comm, partitions[comm.rank])
+
+    return MPI.run_world(len(partitions), rank_fn, chooser, por=por)
+
 # }}}
 
 
@@ -426,6 +438,21 @@ def comm_nodes(b):
         elif isinstance(n, DistributedSendRefHolder):
             holders.append(n)
     return sends, recvs, holders
+
+
+def forwards_bare_recv(case) -> bool:
+    """Some send's payload *is* a DistributedRecv node (also when the JSON
+    interposes an operation that returns its operand, e.g. a reduction over
+    no axes)."""
+    from pytato.distributed.nodes import DistributedRecv
+
+    from pvf import distgen
+    try:
+        builds = distgen.build_case(case)
+    except Exception:  # noqa: BLE001
+        return False
+    return any(isinstance(s.data, DistributedRecv)
+               for b in builds for s in comm_nodes(b)[0])
 
 
 def model_outputs(builds) -> list[dict[str, np.ndarray]]:
